@@ -423,6 +423,17 @@ func c15Token(s int) (kind, p int) {
 // per thread code: 1 returned nil, 2 returned an error, 3 its process went away before it returned (value = the uid it
 // had reached reg.beforeUnlock with, i.e. index and .PASSWDS written, else 0), 0 none of these
 func c15RunPhases(mode int, tab [][]byte, phases []*c15Phase) []string {
+	return c15RunPhasesWith(mode, phases, func() { c15ResetTable(c15Env, tab) }, func() []string {
+		idx, pwd := c15Tables(c15Env)
+		out := c15Enc(idx)
+		out = append(out, "-1")
+		return append(out, c15Enc(pwd)...)
+	})
+}
+
+// c15RunPhasesWith: reset writes .PASSWDS and reloads the shared memory before anything runs; report renders the final
+// SHM index and .PASSWDS (dense for the MAX_USERS = 50 tables, sparse for the production-size tables of c15big.go)
+func c15RunPhasesWith(mode int, phases []*c15Phase, reset func(), report func() []string) []string {
 	e := c15Env
 	nproc := 0
 	procs := []int{}
@@ -450,7 +461,7 @@ func c15RunPhases(mode int, tab [][]byte, phases []*c15Phase) []string {
 		ids = append(ids, ph.ids...)
 	}
 	n := len(procs) // all threads of all phases, numbered in order
-	c15ResetTable(e, tab)
+	reset()
 
 	events := make(chan c15Event, 64)
 	ws := make([]*c15Proc, nproc)
@@ -802,11 +813,7 @@ func c15RunPhases(mode int, tab [][]byte, phases []*c15Phase) []string {
 		out = append(out, fmt.Sprint(int(uid)))
 	}
 	out = append(out, "-1")
-	idx, pwd := c15Tables(e)
-	out = append(out, c15Enc(idx)...)
-	out = append(out, "-1")
-	out = append(out, c15Enc(pwd)...)
-	return out
+	return append(out, report()...)
 }
 
 // case: 2|nproc ngor [njoin rounds]|id pool|initial table  — unscheduled stress: nproc processes x ngor goroutines, each registering every id
@@ -983,6 +990,10 @@ func init() {
 				return c15Stress(args)
 			case 3:
 				return c15RunHistory(args)
+			case 4:
+				return c15RunBig(args)
+			case 5:
+				return c15SameBucket(args)
 			}
 			return []string{"9"}
 		}})
